@@ -100,7 +100,7 @@ def run(ctx):
         if not ctx.quick:
             model(ctx, wd, 'GF(7)', 3, 1, 'SB')
             model(ctx, wd, 'GF(5)', 4, 1, 'SB1')
-            model(ctx, wd, 'GF(7)', 5, 2, 'SB1')
+            # (GF(7), m = 5, t = 2 has 7^2 dealer polynomials per secret and dealer: beyond TLC's set-size limit)
         # ---- god view ----
         jobs = []
         orders = [7, 11, 8, 9, 251] if ctx.quick else [7, 11, 13, 8, 9, 4, 251]
